@@ -49,7 +49,7 @@ def plan(tier, seed):
                     % (d1, e1, n1, d2, e2, n2, d1, short(n1), e1, d2, short(n2), e2))
     # wide family
     WIDE = [(64, 'int'), (128, 'int'), (200, 'int'), (200, 'unsigned'), (256, 'unsigned'), (1000, 'int'), (2048, 'unsigned'), (300, 'std::uint8_t'),
-            (129, 'std::int16_t')]
+            (129, 'std::int16_t'), (2048, 'std::uint8_t'), (2047, 'std::int8_t')]  # the last two: 256 limbs (limb indices no longer fit 8 bits)
     for i, (d1, n1) in enumerate(WIDE):
         for j, (d2, n2) in enumerate(WIDE):
             if i != j and (quick and (i + j) % 3):
